@@ -64,7 +64,11 @@ func main() {
 		defer os.RemoveAll(workRoot())
 	}
 	r := newReporter()
-	f(r)
+	if replayArg != "" && propID != "C02" {
+		replayFile(r, replayArg)
+	} else {
+		f(r)
+	}
 	r.finish()
 }
 
